@@ -561,5 +561,189 @@ theorem ar_shutinv_reach {cfg : Cfg} {now : Nat} {seeds : List Nat} {clients : N
   | init sm => intro hs; simp [BState.init, State.init] at hs
   | step hr hs ih => exact ar_shutinv_step (deadW_reach hr) ih hs
 
+/-! ## 5  a client action never shortens the hand-over queue; every own action lowers `tm_own` -/
+
+theorem ar_poolAdd_bufq {g g1 : State} {h : Nat} {o o' : Oracle} (hp : poolAdd g h o = .ok (g1, o')) :
+    g.bufq.length ≤ g1.bufq.length := by
+  unfold poolAdd at hp
+  split at hp
+  · cases hp
+  · split at hp
+    · cases hp
+    · simp only [] at hp
+      split at hp
+      · simp only [Except.ok.injEq, Prod.mk.injEq] at hp
+        obtain ⟨rfl, _⟩ := hp
+        unfold acceptBuffer
+        split <;> simp
+      · simp only [Except.ok.injEq, Prod.mk.injEq] at hp
+        obtain ⟨rfl, _⟩ := hp
+        exact Nat.le_refl _
+
+theorem ar_up_bufq (b0 : BState) (i id : Nat) (uw : Option Int) : (upAfterIndex b0 i id uw).g.bufq = b0.g.bufq := by
+  rcases upAfterIndex_spec b0 i id uw with ⟨_, e⟩ | ⟨_, _, e⟩ | e <;> rw [e] <;> rfl
+
+set_option hygiene false in
+macro "ar_bleaf" : tactic => `(tactic| first
+  | (simp only [Except.ok.injEq, Prod.mk.injEq] at h; obtain ⟨rfl, -⟩ := h; first
+      | exact Nat.le_refl _
+      | (simp only [mgetNext_g, mgetStart_g, mgetFlagAct_g, ar_up_bufq]; first | exact Nat.le_refl _ | simp))
+  | cases h)
+
+/-- no action of a client takes an event out of the hand-over queue -/
+theorem ar_client_bufq {b b' : BState} {i : Nat} {o o' : Oracle} (h : clientAct b i o = .ok (b', o')) :
+    b.g.bufq.length ≤ b'.g.bufq.length := by
+  unfold clientAct at h
+  simp only [] at h
+  split at h
+  · cases h
+  · rename_i pc hpc
+    cases pc with
+    | idle => cases h
+    | start r =>
+      cases r <;> simp only [] at h <;> split at h <;> (try split at h) <;> ar_bleaf
+    | putPresent k v w ttl => simp only [] at h; split at h <;> ar_bleaf
+    | idNext k v w ttl => simp only [] at h; ar_bleaf
+    | send cmd =>
+      simp only [] at h
+      split at h
+      · rename_i b1 hs
+        simp only [Except.ok.injEq, Prod.mk.injEq] at h
+        obtain ⟨rfl, -⟩ := h
+        unfold sendAct at hs
+        simp only [] at hs
+        split at hs
+        · simp only [Except.ok.injEq] at hs; subst hs
+          exact Nat.le_refl _
+        · split at hs
+          · cases hs
+          · simp only [Except.ok.injEq] at hs; subst hs
+            exact Nat.le_refl _
+      · cases h
+    | delMark k => simp only [] at h; split at h <;> ar_bleaf
+    | getStore k =>
+      simp only [] at h
+      split at h
+      · split at h <;> ar_bleaf
+      · ar_bleaf
+    | getPool k v =>
+      simp only [] at h
+      split at h
+      · rename_i g1 o1 hp
+        simp only [Except.ok.injEq, Prod.mk.injEq] at h; obtain ⟨rfl, -⟩ := h
+        exact ar_poolAdd_bufq hp
+      · cases h
+    | weightRead => simp only [] at h; split at h <;> ar_bleaf
+    | upUpdate k v w ttl rm =>
+      simp only [] at h
+      split at h
+      · cases h
+      · split at h
+        · split at h
+          · split at h <;> ar_bleaf
+          · ar_bleaf
+        · split at h <;> ar_bleaf
+    | upWeightOf id uw old new =>
+      simp only [] at h
+      split at h <;> ar_bleaf
+    | upTtlPut id e uw => simp only [] at h; split at h <;> ar_bleaf
+    | upTtlDelete id e uw => simp only [] at h; split at h <;> ar_bleaf
+    | upTtlRemove id old new uw => simp only [] at h; split at h <;> ar_bleaf
+    | upTtlInsert id new uw => simp only [] at h; split at h <;> ar_bleaf
+    | refStore k =>
+      simp only [] at h
+      split at h
+      · split at h <;> ar_bleaf
+      · ar_bleaf
+    | refPool k v =>
+      simp only [] at h
+      split at h
+      · rename_i g1 o1 hp
+        simp only [Except.ok.injEq, Prod.mk.injEq] at h; obtain ⟨rfl, -⟩ := h
+        exact ar_poolAdd_bufq hp
+      · cases h
+    | shutCas => simp only [] at h; split at h <;> ar_bleaf
+    | shutSendCmd =>
+      simp only [] at h
+      split at h
+      · ar_bleaf
+      · split at h <;> ar_bleaf
+    | shutSendBuf =>
+      simp only [] at h
+      split at h
+      · ar_bleaf
+      · split at h
+        · cases h
+        · simp only [Except.ok.injEq, Prod.mk.injEq] at h; obtain ⟨rfl, -⟩ := h
+          show b.g.bufq.length ≤ (b.g.bufq ++ [BufEvent.shutdown]).length
+          simp
+    | shutConsumerFlag => simp only [] at h; ar_bleaf
+    | shutTickerFlag => simp only [] at h; ar_bleaf
+    | shutStoreClear => simp only [] at h; split at h <;> ar_bleaf
+    | shutKwClear => simp only [] at h; ar_bleaf
+    | shutWuZero => simp only [] at h; split at h <;> ar_bleaf
+    | shutAfClear => simp only [] at h; ar_bleaf
+    | shutStatsClear => simp only [] at h; ar_bleaf
+    | shutTtlClear => simp only [] at h; split at h <;> ar_bleaf
+    | mgetStore k ks acc iter =>
+      simp only [] at h
+      split at h
+      · split at h <;> ar_bleaf
+      · ar_bleaf
+    | mgetPool k v ks acc iter =>
+      simp only [] at h
+      split at h
+      · rename_i g1 o1 hp
+        simp only [Except.ok.injEq, Prod.mk.injEq] at h; obtain ⟨rfl, -⟩ := h
+        simp only [mgetNext_g]
+        exact ar_poolAdd_bufq hp
+      · cases h
+    | mgetFlag outer ks acc iter => simp only [] at h; ar_bleaf
+
+theorem ar_own_zero {pc : CPc} (h : tm_own pc = 0) : pc = .idle := by
+  cases pc with
+  | idle => rfl
+  | start r => cases r <;> simp [tm_own] at h
+  | mgetFlag outer ks acc iter => cases outer <;> simp [tm_own] at h
+  | _ => simp [tm_own] at h
+
+/-- **every own action of a client lowers `tm_own` strictly** (whatever request it is executing) -/
+theorem ar_own_step {b b' : BState} {i : Nat} {pc : CPc} {o o' : Oracle} (hpc : b.cl[i]? = some pc)
+    (_hm : tm_own pc ≠ 0) (h : clientAct b i o = .ok (b', o')) :
+    ∃ pc', b'.cl[i]? = some pc' ∧ tm_own pc' < tm_own pc ∧ (tm_own pc' = 0 → pc' = .idle) := by
+  obtain ⟨pc0, hpc0, pc', hcl, _, _, _, _, hb⟩ := tm_client_step h
+  rw [hpc] at hpc0
+  simp only [Option.some.injEq] at hpc0
+  subst hpc0
+  have hmono := ar_client_bufq h
+  refine ⟨pc', ?_, by omega, ar_own_zero⟩
+  rw [hcl]
+  exact List.getElem?_set_self (lt_of_getElem? hpc)
+
+/-! ## 6  sums over `List.set` -/
+
+theorem ar_sum_set (f : CPc → Nat) : ∀ (l : List CPc) (i : Nat) (x : CPc) (hi : i < l.length),
+    ((l.set i x).map f).sum + f l[i] = (l.map f).sum + f x := by
+  intro l
+  induction l with
+  | nil => intro i x hi; simp at hi
+  | cons y l ih =>
+    intro i x hi
+    cases i with
+    | zero => simp; omega
+    | succ j =>
+      have := ih j x (by simpa using hi)
+      simp only [List.set_cons_succ, List.map_cons, List.sum_cons, List.getElem_cons_succ]
+      omega
+
+theorem ar_sum_cmds_le : ∀ (l : List CPc), (l.map tm_cmds).sum ≤ l.length := by
+  intro l
+  induction l with
+  | nil => simp
+  | cons y l ih =>
+    have : tm_cmds y ≤ 1 := by cases y <;> simp [tm_cmds]
+    simp only [List.map_cons, List.sum_cons, List.length_cons]
+    omega
+
 end B
 end Cached
